@@ -335,3 +335,96 @@ fn driver_g1() {
 
 // Concrete playback (./check <id> --replay): Kani's generated unit test is written to this file, which is empty otherwise.
 include!("/verif/build/gen/playback_rustemo_lr_parser.rs");
+
+// ---------------------------------------------------------------------------------------------------------------
+// LRParser::next_token WITH a layout parser (C02 "enabling partial parsing never turns an accepted input into a ...
+// differently parsed one", C14 layout_ahead, C12 error position after layout).  The layout parser is the REAL LRParser
+// (parse_with_context + SliceBuilder) on a hand-written three-state layout table (harness INPUT):
+//   Layout: Ws      states: 9 = layout start, 10 = after Ws, 11 = after Layout
+// Everything is concrete except the flags partial_parse / "STOP expected in the content state" (symbolic), so that CBMC
+// runs the nested driver concretely.  Input " x": one blank, then a content token `x`.
+#[derive(Debug, Default, Clone, Copy, PartialEq, Eq)]
+pub(crate) struct LSt(pub u8);
+impl State for LSt {
+    fn default_layout() -> Option<Self> {
+        Some(LSt(9))
+    }
+}
+type LCtx<'i> = LRContext<'i, [u8], LSt, Tk>;
+pub(crate) struct LayLexer;
+impl<'i> Lexer<'i, LCtx<'i>, LSt, Tk> for LayLexer {
+    type Input = [u8];
+    fn next_tokens(&self, context: &mut LCtx<'i>, input: &'i [u8], expected: Vec<(Tk, bool)>) -> Box<dyn Iterator<Item = Token<'i, [u8], Tk>> + 'i> {
+        let p = context.position();
+        let layout_state = context.state().0 >= 9;
+        let mut found: Option<Token<'i, [u8], Tk>> = None;
+        if p.pos < input.len() {
+            let v = &input[p.pos..p.pos + 1];
+            // kind 5 = Ws (a blank), only looked for by the layout states; kind 1 = the content token `x`
+            if layout_state && input[p.pos] == b' ' {
+                found = Some(Token { kind: Tk(5), value: v, span: v.span_from(p) });
+            } else if !layout_state && input[p.pos] == b'x' {
+                found = Some(Token { kind: Tk(1), value: v, span: v.span_from(p) });
+            }
+        }
+        std::mem::forget(expected);
+        Box::new(found.into_iter())
+    }
+}
+pub(crate) struct LayDef {
+    pub stop_expected: bool,
+}
+impl ParserDefinition<LSt, u8, Tk, u8> for LayDef {
+    fn actions(&self, state: LSt, token: Tk) -> Vec<Action<LSt, u8>> {
+        match (state.0, token.0) {
+            (9, 5) => vec![Action::Shift(LSt(10))],
+            (10, 0) => vec![Action::Reduce(0, 1)],
+            (11, 0) => vec![Action::Accept],
+            _ => vec![],
+        }
+    }
+    fn goto(&self, _state: LSt, _nonterm: u8) -> LSt {
+        LSt(11)
+    }
+    fn expected_token_kinds(&self, state: LSt) -> Vec<(Tk, bool)> {
+        match state.0 {
+            9 => vec![(Tk(5), false)],
+            10 | 11 => vec![(Tk(0), false)],
+            _ => if self.stop_expected { vec![(Tk(1), false), (Tk(0), false)] } else { vec![(Tk(1), false)] },
+        }
+    }
+    fn longest_match() -> bool { true }
+    fn grammar_order() -> bool { true }
+}
+
+/// bounded(one concrete input " x"; partial_parse and "STOP expected" symbolic)
+#[kani::proof]
+#[kani::unwind(8)]
+#[kani::stub(crate::error::error_expected, stub_error_expected)]
+#[kani::stub(std::env::var_os, stub_var_os)]
+fn next_token_after_layout() {
+    let input: [u8; 2] = [b' ', b'x'];
+    let def = LayDef { stop_expected: kani::any() };
+    let partial: bool = kani::any();
+    let parser: LRParser<LCtx, LSt, u8, Tk, u8, LayDef, LayLexer, TreeBuilder<[u8], u8, Tk>, [u8]> =
+        LRParser::new(&def, LSt(0), partial, true, LayLexer, TreeBuilder::new());
+    // the layout parser exactly as parse_with_context builds it
+    let layout_parser = Some(LRParser::new_default(&def, LSt(9), true, false, Rc::clone(&parser.lexer), RefCell::new(SliceBuilder::new(&input[..]))));
+    let mut ctx: LCtx = LRContext::new(Position { pos: 0, line_col: None });
+    let r = parser.next_token(&input[..], &mut ctx, &layout_parser);
+    // whatever the partial-parse setting: the blank is layout, the token is `x` at offset 1
+    match &r {
+        Ok(t) => {
+            assert!(t.kind == Tk(1), "C02: partial parsing changed which token is found after layout (synthetic STOP before the layout was tried?)");
+            assert!(t.span.start.pos == 1 && t.span.end.pos == 2);
+        }
+        Err(_) => panic!("C02/C12: a token follows the layout but next_token failed"),
+    }
+    assert!(ctx.position().pos == 1, "C14: position not moved over the layout");
+    assert!(matches!(ctx.layout_ahead(), Some(l) if l.len() == 1 && l[0] == b' '), "C14: the layout in front of the token is not stored");
+    assert!(ctx.state() == LSt(0), "lr_driver's assumed contract of next_token: the context's state is restored after the layout parse");
+    kani::cover!(partial && def.stop_expected, "partial parse with STOP expected");
+    std::mem::forget(r);
+    std::mem::forget(layout_parser);
+    std::mem::forget(parser);
+}
